@@ -5,6 +5,59 @@ PROP = "C17"
 KNOWN = {2: "double_dash_inside_literal_taken_for_comment"}
 
 
+FILE_NAMES = ["a.sql", "b.sql", "10_x.sql", "2_y.sql", "B.sql", "a_b.sql", "a.b.sql", "authors.sql", "books.sql", "z.sql"]
+
+
+def multi_file(rep, rng, tier):
+    """'All offending statements of all files are reported, one line each, in file then source order': a package with 2-3
+    query files (one directory, read in name order), each with several statements of which some are in error, must report
+    exactly the diagnostics each file gives when it is the only file, file by file in name order."""
+    n = 120 if tier == "quick" else 3000
+    cases = []
+    for _ in range(n):
+        sch = Schema(rng)
+        names = rng.sample(FILE_NAMES, rng.randint(2, 3))
+        files = {nm: gen_file(rng, errors=rng.choice([0.5, 0.8, 1.0]), sch=sch, prefix="F%d" % i)["queries"] for i, nm in enumerate(names)}
+        cases.append((sch.sql, files))
+    # (i) every file on its own, judged like the single-file cases (positions inside the statement's region, model = sqlc)
+    singles = []
+    for ci, (schema, files) in enumerate(cases):
+        for nm in sorted(files):
+            singles.append({"schema": schema, "queries": files[nm], "kind": "multi", "style": "layout", "_key": (ci, nm)})
+    alone = {}
+    for c, r, v in run_files(rep, singles):
+        wf, known04, holds04, diff, holds17, k17 = v
+        alone[c["_key"]] = r
+        if r.get("ok") or "panic" in r or known04 % 100 == 5 or any("edited query syntax is invalid" in e.get("msg", "") for e in r["errs"]):
+            continue
+        replay = {"schema": c["schema"], "queries": c["queries"], "impl": {k: r.get(k) for k in ("ok", "errs", "panic")}}
+        if diff == 4:
+            rep.violation("correspondence corr:C17:parse_file broken: the set of failing statements differs between model and sqlc", replay, no_input=True)
+        elif not holds17:
+            rep.violation("a diagnostic's line is outside its statement's region (or column < 1)", replay, klass=KNOWN.get(k17))
+        elif diff == 2 and wf:
+            rep.violation("correspondence corr:C17:line_number broken: reported positions differ from the model's", replay, no_input=True)
+    # (ii) all files of the package together (Props/C17.v C17_files_partial: the model's file loop reports file by file what
+    # each file reports alone, given distinct query names)
+    res = run_harness([{"op": "compile", "engine": "postgresql", "schema": schema, "queries": "", "query_files": files} for schema, files in cases])
+    for ci, ((schema, files), together) in enumerate(zip(cases, res)):
+        rs = [alone.get((ci, nm)) for nm in sorted(files)]
+        if together.get("stage") == "schema" or any(r is None or "panic" in r for r in [together] + rs):
+            rep.count("multi-file:skipped")
+            continue
+        line = lambda e, nm: (nm, e.get("line"), e.get("col"), e.get("msg"))
+        want = [line(e, nm) for nm, r in zip(sorted(files), rs) if not r.get("ok") for e in r.get("errs", [])
+                if "no queries contained" not in e.get("msg", "")]
+        got = [line(e, e.get("file")) for e in (together.get("errs") or []) if "no queries contained" not in e.get("msg", "")] if not together.get("ok") else []
+        rep.case(("multi", schema, json.dumps(files, sort_keys=True)), nontrivial=len(want) > 1,
+                 sample={"files": sorted(files), "stderr": got} if len(rep.samples) < 6 and len(want) > 2 else None)
+        rep.count("multi-file:errors-in-%d-files" % len(set(w[0] for w in want)))
+        if got != want:
+            what = "in a different order" if sorted(map(str, got)) == sorted(map(str, want)) else "a different set"
+            rep.violation("a package with several query files reports %s of diagnostics than its files report one by one in name order: want %s, got %s"
+                          % (what, [w[:2] for w in want], [g[:2] for g in got]), {"schema": schema, "query_files": files, "together": got, "file_by_file": want})
+
+
 def run(tier, seed):
     rep = Report(PROP, tier, seed)
     ok, info = prep(PROP)
@@ -36,8 +89,9 @@ def run(tier, seed):
             rep.violation("a diagnostic's line is outside its statement's region (or column < 1)", replay, klass=KNOWN.get(k17))
         elif diff == 2 and wf:
             rep.violation("correspondence corr:C17:line_number broken: reported positions differ from the model's", replay, no_input=True)
+    multi_file(rep, rng, tier)
     if getattr(rep, "proof_broken", None) and not rep.violations:
         rep.violation("proof obligation no longer checks: " + rep.proof_broken, {"theorem_file": "coq/theories/Props/C17.v", "detail": info}, no_input=True)
     return rep.finish("proof", ob, dis, checker_cmd(PROP),
-                      rule="query files with 1-5 statements in random layout of which a random subset is in error (unknown column / relation, bad annotation, missing RETURNING, parameter errors), with blank lines, comments, indentation and multi-byte characters before and inside the statements; each stderr position must lie in the region of the statement it belongs to; non-trivial = at least one diagnostic",
+                      rule="query files with 1-5 statements in random layout of which a random subset is in error (unknown column / relation, bad annotation, missing RETURNING, parameter errors), with blank lines, comments, indentation and multi-byte characters before and inside the statements; each stderr position must lie in the region of the statement it belongs to; packages with 2-3 query files (directory read in name order) whose diagnostics must be those of each file alone, file by file then in source order; non-trivial = at least one diagnostic (more than one for the multi-file cases)",
                       assumptions=["statement regions are the real parser's StmtLocation/StmtLen", "which statements fail is taken from the model (checked by the correspondence)"])
